@@ -22,6 +22,10 @@ pub trait System: Sync {
     type Key: Hash + Eq + Clone + Send + Sync;
 
     fn name(&self) -> String;
+    /// id of the property this run reports under (prefix of engine-made violation signatures)
+    fn pid(&self) -> String {
+        "C00".to_string()
+    }
     fn init(&self) -> Self::State;
     fn actions(&self, s: &Self::State, out: &mut Vec<Self::Action>);
     /// Must be a pure function of (s, a): restores any ambient state (mock clock) from `s`,
@@ -223,7 +227,21 @@ pub fn explore<S: System>(sys: &S, limits: &Limits) -> Outcome<S> {
                         acts.clear();
                         sys.actions(st, &mut acts);
                         for act in acts.iter() {
-                            let r = sys.step(st, act);
+                            let r = match crate::catch(|| sys.step(st, act)) {
+                                Ok(r) => r,
+                                Err(msg) => {
+                                    let rule = if msg.starts_with("harness") { "harness-panic" } else { "panics-on-valid-input" };
+                                    Step {
+                                        next: None,
+                                        obs: 0,
+                                        violations: vec![Violation::new(
+                                            rule,
+                                            format!("{}/{}/{}", sys.pid(), rule, sys.class_name(sys.class_of(act))),
+                                            format!("the real code panicked during {:?}: {}", act, msg),
+                                        )],
+                                    }
+                                }
+                            };
                             l.class_counts[sys.class_of(act)] += 1;
                             if r.obs != 0 && l.obs.len() < obs_cap {
                                 l.obs.insert(r.obs);
@@ -476,6 +494,10 @@ pub fn record<S: System>(
         }));
     }
     for f in &out.found {
+        if f.violation.rule == "harness-panic" {
+            chk.machinery_error(format!("{}: {} [trace: {:?}]", sys.name(), f.violation.detail, f.trace));
+            continue;
+        }
         let mut v = f.violation.clone();
         let rendered: Vec<String> = f.trace.iter().map(|a| sys.render(a)).collect();
         v.case = format!("{}|{}", sys.name(), rendered.join(";"));
